@@ -623,6 +623,11 @@ func writeTypeConversion(w *formatting.IndentedWriter, typeChange dsl.TypeChange
 		w.Indented(func() {
 			writeTypeConversion(w, tc.InnerChange, sourceName+".value()", targetName, write)
 		})
+		// null stays null, whatever the target held before (e.g. the previous item of a stream)
+		fmt.Fprintf(w, "} else {\n")
+		w.Indented(func() {
+			fmt.Fprintf(w, "%s = {};\n", targetName)
+		})
 		fmt.Fprintf(w, "}\n")
 
 	case *dsl.TypeChangeOptionalToScalar:
@@ -632,6 +637,11 @@ func writeTypeConversion(w *formatting.IndentedWriter, typeChange dsl.TypeChange
 			fmt.Fprintf(w, "if (%s.has_value()) {\n", sourceName)
 			w.Indented(func() {
 				fmt.Fprintf(w, "%s = %s.value();\n", targetName, sourceName)
+			})
+			// no value: the documented default zero value, whatever the target held before
+			fmt.Fprintf(w, "} else {\n")
+			w.Indented(func() {
+				fmt.Fprintf(w, "%s = {};\n", targetName)
 			})
 			fmt.Fprintf(w, "}\n")
 		} else {
@@ -646,6 +656,11 @@ func writeTypeConversion(w *formatting.IndentedWriter, typeChange dsl.TypeChange
 			fmt.Fprintf(w, "if (%s.index() == %d) {\n", sourceName, tc.TypeIndex)
 			w.Indented(func() {
 				fmt.Fprintf(w, "%s = std::get<%d>(%s);\n", targetName, tc.TypeIndex, sourceName)
+			})
+			// another case: the documented default zero value, whatever the target held before
+			fmt.Fprintf(w, "} else {\n")
+			w.Indented(func() {
+				fmt.Fprintf(w, "%s = {};\n", targetName)
 			})
 			fmt.Fprintf(w, "}\n")
 		} else {
